@@ -38,7 +38,11 @@ fn alphas<T: F>() -> [T; 3] { [T::of(0.0), T::of(1e-9), T::of(1.0)] }
 /// thorough tier: the full per-component lattice for operators, blends and differences too
 static FULL: std::sync::atomic::AtomicBool = std::sync::atomic::AtomicBool::new(false);
 fn box_of<const N: usize>(name: &str) -> [Comp; N] { let b = space_box(name); let mut o = [Comp::R(0.0, 0.0); N]; for i in 0..N { o[i] = b[i]; } o }
+/// second pass (coverage audit, c07_more.rs A): the same clauses on the edge lattice only, every colour with a handful of partners
+static EDGE: std::sync::atomic::AtomicBool = std::sync::atomic::AtomicBool::new(false);
+fn edge_mode() -> bool { EDGE.load(std::sync::atomic::Ordering::Relaxed) }
 fn cols<T: F, const N: usize>(name: &str) -> Vec<[T; N]> {
+    if edge_mode() { return crate::c07_more::edge_colours::<T, N>(&box_of::<N>(name)); }
     let base = name.split(':').next().unwrap();
     let (small, sl) = (!FULL.load(std::sync::atomic::Ordering::Relaxed), None);
     with_interior(base, &box_of::<N>(name), small, sl, lattice_colours::<T, N>(&box_of::<N>(name), small, sl))
@@ -49,13 +53,11 @@ fn cols<T: F, const N: usize>(name: &str) -> Vec<[T; N]> {
 fn op_mix<C, T: F, const N: usize>(out: &mut Out, key: &str)
 where C: ArrayCast<Array = [T; N]> + Clone + Mix<Scalar = T>, Alpha<C, T>: Mix<Scalar = T> {
     let cs = cols::<T, N>(key);
-    for (i, a) in cs.iter().enumerate() {
-        for b in cs.iter().skip(i % 5).step_by(5) {
+    for (a, b) in pairs_of(&cs) {
+        {
             for f in factors::<T>() {
-                let (a, b) = (*a, *b);
                 judge(out, &format!("mix:{}", key), guard(|| arr(mk::<C, T, N>(a).mix(mk(b), f)).to_vec()), &|| format!("{}.mix({}, {:?})", show(&a), show(&b), f));
             }
-            let (a, b) = (*a, *b);
             for al in alphas::<T>() {
                 judge(out, &format!("mix:Alpha<{}>", key), guard(|| { let r = Alpha { color: mk::<C, T, N>(a), alpha: al }.mix(Alpha { color: mk(b), alpha: T::of(1.0) }, T::of(0.5)); let mut v = arr(r.color).to_vec(); v.push(r.alpha); v }), &|| format!("Alpha({}, {:?}).mix(Alpha({}, 1), 0.5)", show(&a), al, show(&b)));
             }
@@ -148,6 +150,7 @@ fn al_vec<C: ArrayCast<Array = [T; N]>, T: F, const N: usize>(p: Alpha<C, T>) ->
 /// pairs of lattice colours: every colour with a rotating fifth of the others
 fn pairs_of<T: F, const N: usize>(cs: &[[T; N]]) -> Vec<([T; N], [T; N])> {
     let mut v = vec![];
+    if edge_mode() { let n = cs.len(); for (i, a) in cs.iter().enumerate() { for j in [i, (i * 7 + 3) % n, (i * 13 + n / 2) % n, n - 1 - i] { v.push((*a, cs[j])); } } return v; }
     for (i, a) in cs.iter().enumerate() { for b in cs.iter().skip(i % 5).step_by(5) { v.push((*a, *b)); } }
     v
 }
@@ -202,6 +205,11 @@ where C: ArrayCast<Array = [T; N]> + Clone + Premultiply<Scalar = T> + Compose, 
 fn diff_loop<T: F, const N: usize>(out: &mut Out, key: &str, name: &str, full: bool, f: &dyn Fn([T; N], [T; N]) -> T) {
     let cs = if full { full_cols::<T, N>(key) } else { cols::<T, N>(key) };
     let step = if full { 11 } else { 3 };
+    if edge_mode() {
+        // edge pass: every edge colour against itself and three other edge colours, both orders; no interior stream
+        for (a, b) in pairs_of(&cs) { for (a, b) in [(a, b), (b, a)] { judge(out, &format!("{}:{}", name, key), guard(|| vec![f(a, b)]), &|| format!("{}.{}({})", show(&a), name, show(&b))); } }
+        return;
+    }
     for (i, a) in cs.iter().enumerate() { for b in cs.iter().skip(i % step).step_by(step) {
         let (a, b) = (*a, *b);
         judge(out, &format!("{}:{}", name, key), guard(|| vec![f(a, b)]), &|| format!("{}.{}({})", show(&a), name, show(&b)));
@@ -236,7 +244,7 @@ fn diff_loop<T: F, const N: usize>(out: &mut Out, key: &str, name: &str, full: b
     }
 }
 
-fn full_cols<T: F, const N: usize>(name: &str) -> Vec<[T; N]> { lattice_colours::<T, N>(&box_of::<N>(name), false, None) }
+fn full_cols<T: F, const N: usize>(name: &str) -> Vec<[T; N]> { if edge_mode() { return crate::c07_more::edge_colours::<T, N>(&box_of::<N>(name)); } lattice_colours::<T, N>(&box_of::<N>(name), false, None) }
 
 // ------------------------------------------------------------------------------------------------ everything, per component type
 
@@ -342,6 +350,13 @@ macro_rules! cam16_for { ($out:expr) => {{
 
 fn run_f32(out: &mut Out, th: bool) { ops_for!(out, f32, th); }
 fn run_f64(out: &mut Out, th: bool) { ops_for!(out, f64, th); }
+
+pub fn run_ops_edge(out: &mut Out, th: bool) {
+    EDGE.store(true, std::sync::atomic::Ordering::Relaxed);
+    run_f32(out, th);
+    run_f64(out, th);
+    EDGE.store(false, std::sync::atomic::Ordering::Relaxed);
+}
 
 pub fn run_ops(out: &mut Out, th: bool) {
     FULL.store(th, std::sync::atomic::Ordering::Relaxed);
